@@ -21,4 +21,29 @@ PROPS = {
         "scope": "internal/sourcemap/sourcemap.go: encodeVLQ, DecodeVLQ, DecodeVLQUTF16 modelled",
         "assumptions": ["Go int is 64-bit; model integers are unbounded (|v| < 2^62 in every call site)"],
     },
+    "C18": {
+        "lean_modules": ["EsbuildModel.Props.C18"],
+        "theorems": [
+            "EsbuildModel.C18.lenprefix_injective",
+            "EsbuildModel.C18.pieces_partition_output",
+        ],
+        "open": ["Hash.name_determines_bytes: FALSE on the current code (known finding c18-hash-ignores-reference-order): the pre-image omits which chunk each placeholder refers to"],
+        "gen_facts": [],
+        "kernels": [("pieces", 20000, 600000)],
+        "searches": [("c18-hash", 120, 4000)],
+        "scope": "internal/linker/linker.go: breakOutputIntoPieces, substituteFinalPaths (bytes), hashWriteLengthPrefixed/hashWriteUint32 modelled; chunk hashing as a whole reached by the search only",
+        "assumptions": ["xxhash is treated as an injective function of its pre-image (collision freedom is an explicit hypothesis)", "component lengths < 2^32"],
+    },
+    "C19": {
+        "lean_modules": ["EsbuildModel.Props.C19"],
+        "theorems": [
+            "EsbuildModel.C19.count_eq_len",
+            "EsbuildModel.C19.pieces_partition_output",
+        ],
+        "gen_facts": [],
+        "kernels": [("pieces", 20000, 600000)],
+        "searches": [("c19-meta", 300, 12000)],
+        "scope": "internal/linker/linker.go: accurateFinalByteCount vs substituteFinalPaths, breakOutputIntoPieces modelled; metafile JSON assembly reached by the search only",
+        "assumptions": [],
+    },
 }
